@@ -50,6 +50,9 @@ type Opts struct {
 	// KeyVariants puts blanks, tabs, quotes, backslashes, '=' or non-ASCII letters inside some keys
 	// (outside C07's domain: ToCommandLine does not quote).
 	KeyVariants bool
+	// EdgeBlanks puts a blank or tab in front of or behind some string filter values (a filter value is taken
+	// verbatim by -F, unlike list items): only for the check that compares the text route byte by byte
+	EdgeBlanks bool
 	// AllLast sometimes appends "all" after explicit syscalls (outside C07's domain only in so far as the
 	// printed form is "-S all"; enabled by C06).
 	AllLast bool
@@ -315,6 +318,13 @@ func GenFilter(r *mon.Rand, o *Opts, list, field string) Filter {
 			max = 256 // AUDIT_MAX_KEY_LEN; a key may also be given as a filter (-F key=..., any operator)
 		}
 		f.RHS = randString(r, o, max)
+		if fr := r.Fork(23); o.EdgeBlanks && len(f.RHS) < max-2 && fr.Chance(1, 10) {
+			if fr.Bool() {
+				f.RHS = mon.Pick(fr, []string{" ", "\t", "  "}) + f.RHS
+			} else {
+				f.RHS += mon.Pick(fr, []string{" ", "\t"})
+			}
+		}
 		f.Op = mon.Pick(r, AllOps)
 		if r.Chance(2, 3) {
 			f.Op = mon.Pick(r, eqOps)
